@@ -309,6 +309,7 @@ pub fn check(property: &str, tier: &str, started: Instant) -> i32 {
     let findings = runner::load_findings();
     let mut violations = 0u64;
     let mut known_seen = vec![];
+    let min_deadline = started.elapsed().as_secs() + 180;
     let mut minimise_left = 5;
     for (k, f) in &agg.failures {
         if f.property != property {
@@ -321,7 +322,7 @@ pub fn check(property: &str, tier: &str, started: Instant) -> i32 {
         }
         violations += 1;
         let case: Case = serde_json::from_value(f.case.clone()).expect("case");
-        let (mcase, evals, minimised) = if minimise_left > 0 {
+        let (mcase, evals, minimised) = if minimise_left > 0 && started.elapsed().as_secs() < min_deadline {
             minimise_left -= 1;
             // every evaluation of a hanging case costs a watchdog period and leaves a spinning thread behind
             let hang = f.signature.starts_with("deadlock") || f.signature.starts_with("exit_hang") || f.signature.starts_with("no_quiescence");
